@@ -24,6 +24,7 @@ WithChoices == IF S = 0 THEN {<<>>} ELSE {<<>>, <<1>>} \cup (IF S >= 2 THEN {<<1
 
 BodyMenu(H) ==
      {<<>>, <<[o |-> "create", with |-> <<>>]>>, <<[o |-> "ecreate"]>>, <<[o |-> "lexec", body |-> <<>>]>>}
+  \cup (IF S >= 1 THEN {<<[o |-> "lcreate", with |-> <<1>>]>>} ELSE {})
   \cup {<<[o |-> "delete", h |-> k]>> : k \in H}
   \cup {<<[o |-> "edelete", h |-> k]>> : k \in H}
   \cup (IF S >= 1 THEN {<<[o |-> "sop", cls |-> "insert", s |-> 1, h |-> k]>> : k \in H} ELSE {})
